@@ -20,7 +20,8 @@ FLAG_NAMES = {"dnl": "dot_matches_new_line", "ml": "multi_line", "oct": "octal",
 
 META = set("\\.+*?()|[]{}^$#&-~")
 # characters c for which `\c` is "special neither to lex nor to the regex engine": stands for c
-PLAIN_ESC = ['"', "'", "<", ">", ",", ";", "%", "!", "=", "@", "_", "/", ":", "`", "é", "♠", "😀", "q", "h", "y", "g", "ß", "Ω"]
+# (8 and 9 are not octal digits: `\8`, `\9` are escapes neither of lex nor of the regex engine)
+PLAIN_ESC = ['"', "'", "<", ">", ",", ";", "%", "!", "=", "@", "_", "/", ":", "`", "é", "♠", "😀", "q", "h", "y", "g", "ß", "Ω", "8", "9"]
 MULTI = ["é", "♠", "😀", "ß", "Ω"]
 LETTERS = list("abcxyz019")
 # char::is_whitespace = what the regex crate skips (outside AND inside classes) when ignore_whitespace is on.
@@ -50,6 +51,16 @@ def has_new_escape(written):
         else:
             i += 1
     return False
+
+
+# `\8` / `\9` next to octal escapes and inside classes: (written, meant)
+DIGIT_ESC = [("\\18", "\\1\\x{38}"), ("\\78", "\\7\\x{38}"), ("\\09", "\\0\\x{39}"), ("[\\8\\9]", "[89]"), ("[^\\9a]", "[^9a]"),
+             ("[0-\\8]", "[0-8]"), ("\\8\\9", "\\x{38}\\x{39}"), ("\\1019", "\\101\\x{39}"), ("(\\9|q)", "(9|q)")]
+
+
+def has_nonoctal_escape(written):
+    """does `written` contain `\8` or `\9` (the class of the digit defect of the escape table)"""
+    return any(c in "89" for c in escaped_chars(written))
 
 
 def ends_in_trail_ws(written):
@@ -134,9 +145,11 @@ def gen_atoms(rng, flags, allow_space=True):
         elif r < 0.66:
             c = rng.choice(sorted(META))
             a = ("\\" + c, "\\" + c)
-        elif r < 0.70:
+        elif r < 0.685:
             e = rng.choice(NEW_ESC_PLAIN if rng.random() < 0.6 else NEW_ESC_CLASS)
             a = (e, e)
+        elif r < 0.70:
+            a = rng.choice(DIGIT_ESC)
         elif r < 0.76:
             e = rng.choice(["\\d", "\\w", "\\s", "\\n", "\\t", "\\x41", "\\101", "\\u00e9", "\\pL", "\\a", "\\f", "\\r", "\\v", "\\D", "\\S", "\\W", "\\x7a"])
             a = (e, e)
